@@ -1,7 +1,7 @@
 (** C20 — property theorems only: statement, [exact] of a lemma proved elsewhere, [Print Assumptions].
     Model: Model/C20_Loop.v (mirrors RecurrentSelectionBreedingProgram.initialize/reset/advance/evolve on an explicit
     heap; operators and logbook are arbitrary heap transformers, [opset]). *)
-From PV Require Import Lib.Common Model.C20_Loop Proofs.C20_Loop Proofs.C20_Chain Proofs.C20_Heap Proofs.C20_Indep Proofs.C20_Fresh Proofs.C20_Progress Proofs.C20_Sharing Proofs.C20_Main.
+From PV Require Import Lib.Common Model.C20_Loop Proofs.C20_Loop Proofs.C20_Chain Proofs.C20_Heap Proofs.C20_Indep Proofs.C20_Fresh Proofs.C20_Progress Proofs.C20_Sharing Proofs.C20_Main Gen.C20_Program Proofs.C20_Program.
 Local Open Scope nat_scope.
 
 (** Call order, time index, replicate counter — for ALL operators/logbooks, ALL counts, ALL states: the calls of
@@ -161,6 +161,37 @@ Theorem C20_initialize_without_miscout_refuted :
     snd (evolve ops true initres 1 1 true st) = true.
 Proof. exact init_without_miscout_refuted. Qed.
 Print Assumptions C20_initialize_without_miscout_refuted.
+
+(** The programme of the CURRENT source: Gen/C20_Program.v is regenerated on every run by translating the bodies of
+    reset / is_initialized / initialize / advance / evolve statement by statement (fail closed) into the combinators of
+    the model; it coincides with the hand-written model, so every theorem of this file speaks about the call sequence
+    the source spells out now. *)
+Theorem C20_program_is_model :
+  (forall ops, gen_generation ops = generation ops) /\ (forall ops ngen, gen_advance ops ngen = advance ops ngen) /\
+  (forall ops ngen li, gen_replicate ops ngen li = replicate ops ngen li) /\
+  (gen_reset_plan = map (fun i => (i, i)) (seq 0 5) /\ gen_reset_time = 0%Z) /\
+  (forall strict res, gen_initialize strict res = initialize strict res) /\
+  (forall st, length (p_start st) = 5 -> gen_is_initialized st = is_initialized st) /\
+  (forall ops strict initres nrep ngen li st, length (p_start st) = 5 ->
+     gen_evolve ops strict initres nrep ngen li st = evolve ops strict initres nrep ngen li st).
+Proof.
+  exact (conj gen_generation_is_model (conj gen_advance_is_model (conj gen_replicate_is_model (conj gen_reset_is_model
+        (conj gen_initialize_is_model (conj gen_is_initialized_is_model gen_evolve_is_model)))))).
+Qed.
+Print Assumptions C20_program_is_model.
+
+(** the trace theorem about the generated programme itself *)
+Theorem C20_generated_trace_shape : forall ops strict initres nrep ngen li st, length (p_start st) = 5 ->
+  match gen_evolve ops strict initres nrep ngen li st with
+  | (st', evs, ok) =>
+      (ok = true -> map sig evs = evolve_sig (is_initialized st) nrep ngen li (p_tmax st) (p_rep st)
+                    /\ p_rep st' = (p_rep st + Z.of_nat (Z.to_nat nrep))%Z
+                    /\ p_t st' = (if Nat.eqb (Z.to_nat nrep) 0 then p_t st else 1 + Z.of_nat (Z.to_nat ngen))%Z
+                    /\ p_tmax st' = p_tmax st)
+      /\ (ok = false -> prefix (map sig evs) (evolve_sig (is_initialized st) nrep ngen li (p_tmax st) (p_rep st)))
+  end.
+Proof. intros ops strict initres nrep ngen li st H. rewrite (gen_evolve_is_model ops strict initres nrep ngen li st H). exact (trace_shape ops strict initres nrep ngen li st). Qed.
+Print Assumptions C20_generated_trace_shape.
 
 (** non-vacuity: a concrete five-container start state with shared leaves and one dict in two slots meets every
     hypothesis, with in-place mutating, aliasing and remembering operators *)
